@@ -709,6 +709,69 @@ fam('built_chains', chain_ops + [P("select * from int.tab1 t1 where t1.a = 1", c
                                  P("select * from int.tab1 t1 join int2.tab2 t2 on t1.a = t2.a where t1.c = 3 or t2.d = 4", cA),
                                  {'k': 'render', 'd': 'mindsdb', 'sql': "select a from t where b = 1 or c = 2", 'rd': 'mysql', 'fb': True}])
 
+# plural slots: every list-valued position of a statement that the planner takes apart, filled with two to four distinct elements
+# whose names differ in length and spelling (so that hashing orders them differently from how they are written).  A collection
+# that an implementation keeps in a set / dict keyed by hashed objects shows its iteration order exactly here: the order of plan
+# steps, of filters, of fetched columns.  The whole family is part of every S3 interpreter's slice.
+c5 = cat_id({'integrations': ['int', 'int2', 'warehouse', 'crm', 'z9'], 'predictor_namespace': 'mindsdb', 'predictor_metadata': META_PRED + [{'name': 'churn'}, {'name': 'a1'}],
+             'default_namespace': None})
+_KEYS = ['region', 'order_id', 'sku', 'day', 'customer_id', 'z', 'aa', 'Qty']
+plural = []
+for nk_ in (2, 3, 4):
+    for off_ in (0, 3):
+        ks_ = [_KEYS[(off_ + i_) % len(_KEYS)] for i_ in range(nk_)]
+        on_ = ' and '.join('o.%s = i.%s' % (k_, k_) for k_ in ks_)
+        on_rev_ = ' and '.join('i.%s = o.%s' % (k_, k_) for k_ in ks_)
+        plural.append(P("select * from int.orders o join int2.items i on %s" % on_, cA))
+        plural.append(P("select o.%s, i.%s from int.orders o left join int2.items i on %s where o.total > 10" % (ks_[0], ks_[-1], on_rev_), cA))
+        plural.append(P("select * from int.orders o join int2.items i on %s and o.total > i.price" % on_, cAPI))
+        plural.append(P("select * from int.orders o join int2.items i on %s join warehouse.stock s on s.%s = i.%s and s.%s = o.%s" % (on_, ks_[0], ks_[0], ks_[1], ks_[1]), c5))
+        plural.append(P("select * from int.orders o join mindsdb.pred m where %s" % ' and '.join("o.%s = %d" % (k_, j_) for j_, k_ in enumerate(ks_)), cA))
+        plural.append(P("select * from mindsdb.pred where %s" % ' and '.join("%s = %d" % (k_, j_) for j_, k_ in enumerate(ks_)), cA))
+        plural.append(P("select %s, count(*) from int.orders o join int2.items i on o.id = i.id group by %s order by %s" % (
+            ', '.join('o.' + k_ for k_ in ks_), ', '.join('o.' + k_ for k_ in ks_), ', '.join('o.' + k_ for k_ in reversed(ks_))), cA))
+        plural.append(P("select * from int.orders where %s" % ' and '.join("%s in (select %s from %s.t%d)" % (k_, k_, ['int2', 'warehouse', 'crm', 'z9'][j_], j_) for j_, k_ in enumerate(ks_)), c5))
+        plural.append(P(' union '.join("select %s from %s.t" % (', '.join(ks_), ig_) for ig_ in ['int', 'int2', 'warehouse', 'crm'][:nk_]), c5))
+        plural.append(P("with %s select * from %s" % (', '.join("%s as (select * from %s.t)" % (k_, ig_) for k_, ig_ in zip(ks_, ['int', 'int2', 'warehouse', 'crm'])),
+                                                      ' join '.join(ks_[:2]) + ' on %s.id = %s.id' % (ks_[0], ks_[1])), c5))
+        plural.append(P("insert into int.orders (%s) select %s from int2.items" % (', '.join(ks_), ', '.join(ks_)), cA))
+        plural.append(P("update int.orders set %s from (select * from int2.items) as df where %s" % (
+            ', '.join('%s = df.%s' % (k_, k_) for k_ in ks_), ' and '.join('orders.%s = df.%s' % (k_, k_) for k_ in ks_[:2])), cA))
+        plural.append(P("select t.%s, m.p from int.orders t join mindsdb.pred m join mindsdb.churn c join mindsdb.a1 x" % ks_[0], c5))
+plural.append(P("select * from mysql.data.ny_output as ta join mindsdb.tp3 as tb where ta.pickup_hour > latest and ta.vendor_id = 1 and ta.zone = 'a' and ta.kind = 2 and ta.day_type = 'w'", cTS2))
+plural.append(P("select * from mysql.data.ny_output as ta join mindsdb.tp3 as tb where ta.day_type = 'w' and ta.kind = 2 and ta.pickup_hour > latest and ta.zone = 'a' and ta.vendor_id = 1", cTS2))
+plural += [{'k': 'parse', 'd': 'mindsdb', 'sql': q_} for q_ in (
+    "create model mindsdb.m from int (select * from t) predict a, b using engine = 'x', zeta = 1, alpha = 'q', Mid = 2.5, k9 = true",
+    "create model mindsdb.m predict y using b = 1, a = 2, c = {\"z\": 1, \"a\": 2, \"m\": [3, 2, 1]}",
+    "create database d with engine = 'pg', parameters = {\"user\": \"u\", \"host\": \"h\", \"port\": 5, \"a\": 1, \"zz\": 2}",
+    "create job j (select 1) start '2023-01-01' end '2024-01-01' every 2 hours",
+    "select * from t1, t2, zz, a9 where t1.a = t2.a and zz.b = a9.b",
+    "create view v (select region, order_id, sku, day from int.t)",
+    "create table int.t (region int, order_id text, sku float, day date, customer_id int)")]
+plural_render = [{'k': 'render', 'd': 'mindsdb', 'sql': o_['sql'], 'rd': rd_, 'fb': True} for i_, o_ in enumerate(plural) if o_['k'] == 'plan' and i_ % 3 == 0
+                 for rd_ in (('mysql', 'postgresql')[i_ % 2],)]
+fam('plural_slots', plural + plural_render)
+
+# wide inputs: a statement's breadth (number of distinct names / constants) instead of its depth.  A memo or table with a capacity
+# (an LRU of 128, 256 or 512 entries, a cache that is cleared when full) behaves differently only once a process has seen more
+# distinct keys than it holds; ordinary corpus texts share a few dozen names.  Caller-built (no parser cost) and parsed.
+wide_ops = []
+for n_ in (70, 140, 270, 530):
+    for tag_ in ('a', 'b'):
+        wide_ops.append({'k': 'plan', 'ast': 'wide_%d_%s_plain' % (n_, tag_), 'cat': cA})
+        wide_ops.append({'k': 'render', 'd': 'mindsdb', 'ast': 'wide_%d_%s_plain' % (n_, tag_), 'rd': 'mysql' if tag_ == 'a' else 'postgresql', 'fb': True})
+    wide_ops.append({'k': 'plan', 'ast': 'wide_%d_c_join' % n_, 'cat': cA})
+    wide_ops.append({'k': 'plan', 'ast': 'wide_%d_d_consts' % n_, 'cat': cA})
+    wide_ops.append({'k': 'render', 'd': 'mindsdb', 'ast': 'wide_%d_d_consts' % n_, 'rd': 'mysql', 'fb': True})
+for n_ in (70, 140):
+    cols_ = ', '.join('wp%d_%d' % (n_, i_) for i_ in range(n_))
+    wide_ops.append({'k': 'parse', 'd': 'mindsdb', 'sql': 'select %s from int.tab1' % cols_})
+    wide_ops.append({'k': 'parse', 'd': 'mysql', 'sql': 'select * from tab1 where a in (%s)' % ', '.join("'s%d_%d'" % (n_, i_) for i_ in range(n_))})
+fam('wide_inputs', wide_ops + [P("select * from int.tab1 t1 where t1.a = 1", cA), P("select t1.a, m.p from int.tab1 t1 join mindsdb.pred m where t1.b = 2", cA),
+                               P("select * from int.tab1 t1 join int2.tab2 t2 on t1.a = t2.a", cA),
+                               {'k': 'parse', 'd': 'mindsdb', 'sql': "select a, b from t1 where c = 1"},
+                               {'k': 'render', 'd': 'mindsdb', 'sql': "select a, b from t1 where c = 'x'", 'rd': 'mysql', 'fb': True}])
+
 # DDL on one reused renderer: the same table name with different column lists, created / dropped / created again
 DDL_EXTRA = ["create table t (a int, b text, primary key (a))", "create table t (a int, b text, primary key (x))", "create table t (a int primary key, b int default 1)",
              "create table t (a int, primary key (a, zz))"]
@@ -828,7 +891,7 @@ probes = [
     {'k': 'render', 'd': 'mindsdb', 'sql': "select interval '1 day'", 'rd': 'oracle', 'fb': True},
 ]
 
-pool = parse_ops + mut_ops + mal_ops + plan_ops + render_ops + flow_ops + gen_plan + gen_render + gen_parse + leaf_pool + render_ops_late + dialect_diff_ops + render_ops_long + raw_ops
+pool = parse_ops + mut_ops + mal_ops + plan_ops + render_ops + flow_ops + gen_plan + gen_render + gen_parse + leaf_pool + render_ops_late + dialect_diff_ops + render_ops_long + raw_ops + plural + plural_render + wide_ops
 # dedupe
 seen = set()
 pool2 = []
